@@ -15,8 +15,21 @@ Proved here, for ALL expressions / parameter lists / statements:
  * `arity_exact` : 7 / 8 ⇔ more values than targets, or fewer values all of which are single-valued.
 -/
 import LuaHelper.Model.Pat
+import LuaHelper.Gen.Shapes
 namespace LuaHelper.C20
 open LuaHelper.Lex LuaHelper.Ast LuaHelper.Pat
+
+/-- where the ten pattern diagnostics are produced, as the code stands in /repo now (regenerated every
+    run): each type is inserted by exactly the traversal function the model's `pExp` / `pStat` cases are
+    written after (7 and 8 twice: too many / too few values) -/
+theorem pattern_insert_sites :
+    Gen.patternInserts =
+      ["CheckErrorAndAlwaysFalse@cgBinopExp", "CheckErrorAssignParamNum@cgAssignStat", "CheckErrorAssignParamNum@cgAssignStat",
+       "CheckErrorDuplicateExp@cgBinopExp", "CheckErrorDuplicateIf@cgIfStat", "CheckErrorDuplicateParam@checkDuplicateFunParam",
+       "CheckErrorFloatEq@cgBinopExp", "CheckErrorLocalParamNum@cgLocalVarDeclStat", "CheckErrorLocalParamNum@cgLocalVarDeclStat",
+       "CheckErrorOrAlwaysTrue@cgBinopExp", "CheckErrorSelfAssign@cgAssignStat", "CheckErrorTableDuplicateKey@cgTableConstructorExp"] := by
+  decide
+#print axioms pattern_insert_sites
 
 /-! ### CompExp -/
 
